@@ -25,7 +25,9 @@ def make_cases(tier, rng):
 
     def add(proto, launch, beh, pattern, n=1):
         cases.append({"name": "k%d" % len(cases), "proto": proto, "launch": launch, "behaviour": beh,
-                      "delay_ms": rng.choice([300, 700, 1200]) if beh == "delay" else 0, "pattern": pattern, "n": n})
+                      "delay_ms": rng.choice([300, 700, 1200]) if beh == "delay" else 0, "pattern": pattern, "n": n,
+                      # a Kill before the client was ever started (a no-op) on every other case
+                      "early_kill": len(cases) % 2 == 1 and launch in ("cmd", "runner")})
     combos = [(p, l, b) for p in PROTOS for l in LAUNCHES for b in BEHAVIOURS if valid(p, l, b, tier)]
     if tier == "quick":
         # every behaviour x protocol once (launch method rotating), every pattern on the graceful ones
